@@ -100,6 +100,13 @@ def register(G):
     reg("tensor", "__getitem__", "linear-array,none", lambda b: dict(X=b.T(), i=E()), lambda o: o.X[o.i], shapes=SH[:2])
     reg("sptensor", "__getitem__", "subscripts,none", lambda b: dict(X=b.S(), s=np.zeros((0, b.N), dtype=int)), lambda o: o.X[o.s], shapes=SH[:2])
     reg("sptensor", "extract", "no-query-row", lambda b: dict(X=b.S(), q=np.zeros((0, b.N), dtype=int)), lambda o: o.X.extract(o.q), shapes=SH[:2])
+    # "everything selected": the selection that leaves the object as it is (the counterpart of the empty selection)
+    reg("ktensor", "extract", "all-components-in-order", lambda b: dict(X=b.K(), i=np.arange(2)), lambda o: o.X.extract(o.i), shapes=SH[:2])
+    reg("ktensor", "extract", "all-components,list", lambda b: dict(X=b.K(), i=[0, 1]), lambda o: o.X.extract(o.i), shapes=SH[:1])
+    reg("sptensor", "extract", "all-stored-subscripts", lambda b: dict(X=b.S(), q=b.subs()), lambda o: o.X.extract(o.q), shapes=SH[:2])
+    reg("sptensor", "__getitem__", "subscripts,all-stored", lambda b: dict(X=b.S(), s=b.subs()), lambda o: o.X[o.s], shapes=SH[:2])
+    reg("tensor", "collapse", "all-modes,dims=arange", lambda b: dict(X=b.T(), d=np.arange(b.N)), lambda o: o.X.collapse(o.d), kind="scalar", shapes=SH[:1])
+    reg("ktensor", "arrange", "identity-permutation", lambda b: dict(X=b.K(), p=np.arange(2)), lambda o: o.X.arrange(permutation=o.p), kind="inplace", recv="X", shapes=SH[:2])
     # the request resolver itself
     import pyttb.pyttb_utils as PU
     reg("utils", "tt_dimscheck", "no-mode,dims=empty", lambda b: dict(d=E()), lambda o, b: PU.tt_dimscheck(b.N, 0, dims=o.d), shapes=SH[:1])
